@@ -149,6 +149,7 @@ def run(ctx):
         except Exception: pass
     run_strings(ctx)
     run_counts(ctx)
+    run_rel_checker(ctx)
 
 
 # ---------------------------------------------------------------- string indexing / slicing: per-dialect ASTs on the C25 evaluator
@@ -386,6 +387,79 @@ def run_counts(ctx):
                 if 'oracle' in res and res['oracle'] != exp:
                     ctx.count('counts:suspected:oracle-statement-differs'); ctx.extra.setdefault('suspected_oracle_count', {'query': qsrc, 'oracle statement on the same data': res['oracle'][:4], 'python': exp[:4]})
         db.disconnect()
+
+
+# ---------------------------------------------------------------- correlated EXISTS and to-one joins on every dialect: the verified checker
+
+def run_rel_checker(ctx):
+    """`exists(e for e in p.es if COND)` / `not exists(…)` and conditions navigating `e.parent.<attr>`: the AST of the real sqlite /
+    postgres / mysql translators goes to the verified checker with the dialect's own rules (ops checkexists / checkjoin).  Accepted on
+    two dialects => by C01_exists_collection / C01_not_exists_collection / C01_join (proved for every dialect) both statements
+    return the same parents / rows on every database."""
+    from pony.orm import Database, Required, Optional, Set, exists as pony_exists
+    rng = ctx.rng
+    ponyutil.add_stubs()
+    from pony.orm.tests.testutils import TestDatabase
+    dbs = {}
+    for prov, md in (('sqlite', 'sqlite'), ('postgres', 'pg'), ('mysql', 'mysql')):
+        db = Database() if prov == 'sqlite' else TestDatabase()
+        class P(db.Entity):
+            k = Required(int); kn = Optional(int); nm = Required(str)
+            es = Set('E')
+        class E(db.Entity):
+            a = Required(int); c = Required(int); n = Optional(int); m = Optional(int)
+            b = Required(bool); nb = Optional(bool)
+            s = Required(str); t = Optional(str); ns = Optional(str, nullable=True)
+            parent = Required(P)
+        db.bind(prov, ':memory:')
+        if prov == 'sqlite': db.generate_mapping(create_tables=True)
+        else: db.generate_mapping(check_tables=False)
+        dbs[prov] = (db, P, E, md)
+    PARENT = {'parent.k': ('int', False), 'parent.kn': ('int', True), 'parent.nm': ('str', False)}
+    class JoinGen(Q.Gen):
+        def leaf(self, ty, want_attr=False):
+            r = self.rng
+            if r.random() < 0.3:
+                if ty == 'int': return ('attr', r.choice(['parent.k', 'parent.kn']))
+                if ty == 'str': return ('attr', 'parent.nm')
+            return Q.Gen.leaf(self, ty, want_attr)
+    sch = Q.schema_json(); schj = dict(sch, attrs=dict(sch['attrs'], **{k: [v[0], v[1]] for k, v in PARENT.items()}))
+    gen = Q.Gen(rng, 'frag'); jgen = JoinGen(rng, 'frag')
+    Q.ATTRS.update(PARENT)
+    reqs, meta = [], []
+    try:
+        for i in range(ctx.scale(60, 600)):
+            join = i % 2 == 1
+            e = (jgen if join else gen).expr(rng.choice([1, 2, 2, 3]))
+            if join and not any(x[0] == 'attr' and x[1].startswith('parent.') for x in Q.subexprs(e)): continue
+            params = Q.random_params(rng); src = Q.src(e)
+            neg = rng.random() < 0.4
+            qsrc = ('e.id for e in E if ' + src) if join else ('p.id for p in P if %sexists(e for e in p.es if %s)' % ('not ' if neg else '', src))
+            for prov, (db, P, E, md) in dbs.items():
+                ctx.case(['rel', prov, qsrc], kind='rel:' + prov)
+                G = dict(params); G.update(P=P, E=E, exists=pony_exists)
+                try:
+                    with db_session:
+                        conds = Q.norm_ast(select(qsrc, G)._translator.conditions)
+                except Exception as ex:
+                    ctx.count('rel:%s:raises:%s' % (prov, type(ex).__name__)); continue
+                if join:
+                    reqs.append({'op': 'checkjoin', 'dialect': md, 'schema': schj, 'expr': Q.to_json(e), 'sql': conds, 'child': 'e'})
+                elif len(conds) == 1:
+                    reqs.append({'op': 'checkexists', 'dialect': md, 'schema': sch, 'expr': Q.to_json(e), 'ast': conds[0], 'parent': 'p', 'child': 'e', 'pk': 'id', 'fk': 'parent'})
+                else: continue
+                meta.append((qsrc, prov, neg, join))
+    finally:
+        for k in PARENT: Q.ATTRS.pop(k, None)
+    for db, P, E, md in dbs.values():
+        try: db.disconnect()
+        except Exception: pass
+    if not ctx.driver.ok: return
+    for (qsrc, prov, neg, join), out in zip(meta, ctx.driver('C02', reqs)):
+        if out.get('accepted') and (join or out.get('negated') == neg): ctx.count('rel:checker-accepted:' + prov)
+        elif out.get('frag'):
+            ctx.divergence('the verified checker rejects the %s statement of a query with a correlated sub-query / a to-one join' % prov, {'query': qsrc}, model=out, impl=None)
+        else: ctx.count('rel:checker-not-applicable:' + prov)
 
 
 def _nodes(ast):
